@@ -248,6 +248,9 @@ def step (st : St) (toks : List String) : St × String :=
         let maj := match twoThirdsMajority s with | some b => showBid b | none => "none"
         (st, s!"ok maj23={maj} h={s.height} r={s.round} sum={s.sum} votes={showSlots s.votes}")
     | _, _ => (st, "bad-op")
+  | "verifynil" :: _ =>
+    -- `VerifyCommit(nil)` is refused (fix f5d5bad); `VerifyCommitAny(nil)` (no caller) still dereferences the nil commit
+    if !st.hasVals then (st, "dead") else (st, "verify=err=nil any=panic")
   | "fsvals" :: _ =>
     match parseVals? toks, argHex? toks "chain" with
     | some vals, some chain => ({ st with chain := chain, vals := vals, hasVals := true }, "ok")
@@ -281,8 +284,8 @@ def step (st : St) (toks : List String) : St × String :=
       let (applied, stop) := fsLoop symVerify st.chain (decide (a ≤ n)) 1 hs
       let overHit := match over with | some k => decide (1 ≤ k ∧ k ≤ min a n) | none => false
       let dropped := stop == FsStop.badCommit || overHit
-      if stop == FsStop.halt then ({ st with fs := [] }, "panic")
-      else ({ st with fs := [] }, s!"applied={applied} altered=- dropped={if dropped then "p0" else "-"} switched={stop == FsStop.caughtUp && !dropped}")
+      let appliedS := if a > n then "*" else toString applied   -- (a lying announcement: progress is scheduler-dependent, not compared)
+      ({ st with fs := [] }, s!"applied={appliedS} altered=- dropped={if dropped then "p0" else "-"} switched={stop == FsStop.caughtUp && !dropped}")
     | _, _ => (st, "bad-op")
   | "signbytes" :: _ =>
     match argHex? toks "chain", parseVote? st.chain toks with
